@@ -29,6 +29,7 @@ RULE = ('operators built by every proximal factory x options (g None/element, sc
         '(reified operator term, input)')
 ASSUMPTIONS = [
     'exact arithmetic (rounding, NaN/inf, signed zeros out of scope); tolerance 1e-10 in the correspondence',
+    'lincomb is size-independent (C01 proves the three regimes of _lincomb_impl); C10 only probes the BLAS regime',
     'library primitives (lincomb, multiply, divide, assign, ufunc out=, augmented assignment) read their operands '
     'completely before writing out (C01 proves this for lincomb; NumPy element-wise ufuncs with out aliased to an input)',
     'operator parameters (g, element-valued sigma, bounds, translation, vectors) are not the same objects as x/out',
@@ -56,7 +57,13 @@ LEVEL_TEXT = ('Proof over REGENERATED programs: on every run translate/prox_call
               'before the last read of x breaks these proofs; a construct outside the grammar fails closed. The aliased '
               'theorem holds over any carrier. Parameters and tree shapes are read off live operator objects and an '
               'in-Coq differential run of P(x), P(y,out=y), P(x,out=z) validates the translator\'s primitives on every branch.')
-LEVEL_NOTE = ('Validated, not proved: the translator\'s reading of each library call as a read-then-write primitive '
+LEVEL_NOTE = ('The heap model treats lincomb as one correct read-then-write primitive: that this holds in every size regime of '
+              '_lincomb_impl (direct / fallback / BLAS, all alias patterns) is C01\'s theorem, not C10\'s; C10 VALIDATES the '
+              'composition at BLAS sizes: every proximal _call, the nine expression classes, DiagonalOperator and the in-place '
+              'lincomb patterns of the solvers are run aliased and non-aliased on 50000/65536-entry float32/float64/complex '
+              'spaces against the same operator evaluated with the BLAS regime switched off and against plain-NumPy closed '
+              'forms (probes `blas:*`, also in the quick tier). '
+              'Validated, not proved: the translator\'s reading of each library call as a read-then-write primitive '
               '(correspondence on all branches), NumPy/ODL primitives, proj_simplex / PointwiseNorm / SVD / Lambert-W as '
               'value-level or opaque functions, the three hand-written programs (MatrixOperator.dot, default in-place '
               'bridge, DiagonalOperator row loop), user-supplied temporaries assumed absent, rounding/NaN. Axioms: '
